@@ -85,7 +85,7 @@ RECURSIVE IsSubseq(_, _)
 IsSubseq(a, b) == IF Len(a) = 0 THEN TRUE
                   ELSE IF Len(b) = 0 THEN FALSE
                   ELSE IF a[1] = b[1] THEN IsSubseq(Tail(a), Tail(b)) ELSE IsSubseq(a, Tail(b))
-ArgValues(b) == LET sel == SelectSeq(b, LAMBDA x : x[1] = "A") IN [i \in 1..Len(sel) |-> sel[i][3]]
+ArgValues(d) == [i \in 1..Len(d.ab) |-> d.ab[i][2]]
 PositionalsInOrder ==
   (Done /\ ~Fam.specs[si].hasend) => \A b \in Accepting(Ctx(Clean), Fam.specs[si].ast, argv) : IsSubseq(ArgValues(b), argv)
 
